@@ -11,6 +11,8 @@ package main
 import (
 	"fmt"
 	"hash/fnv"
+	"os"
+	"strconv"
 	"strings"
 
 	"verif/gen/pbfgen"
@@ -44,7 +46,17 @@ func main() {
 		if !r.Quick() {
 			procs = []int{1, 2, 3, 8, 16, 32}
 		}
+		if v := os.Getenv("C01_PROCS"); v != "" {
+			// the cgo pass of the thorough tier repeats the enumeration with fewer decoder counts
+			procs = nil
+			for _, f := range strings.Fields(v) {
+				if n, err := strconv.Atoi(f); err == nil {
+					procs = append(procs, n)
+				}
+			}
+		}
 		r.Set("procs", procs)
+		r.Set("cgo_build", cgoEnabled)
 		var cases []tcase
 		fams := map[string]int{}
 		only := []int(nil)
